@@ -466,8 +466,32 @@ func (c *Ctx) ifaceTag(t types.Type) (int, string) {
 		id = len(c.ifTags) + 1
 		c.ifTags[key] = id
 		c.dtDecls = append(c.dtDecls, fmt.Sprintf("(declare-fun %s (Iface) %s)", acc, c.sortOf(t)))
+		box := "box_" + acc[len("ifval_"):]
+		c.dtDecls = append(c.dtDecls, fmt.Sprintf("(declare-fun %s (%s) Iface)", box, c.sortOf(t)))
+		c.dtDecls = append(c.dtDecls, fmt.Sprintf("(assert (forall ((x %s)) (! (and (= (iftag (%s x)) %d) (= (%s (%s x)) x)) :pattern ((%s x)))))", c.sortOf(t), box, id, acc, box, box))
 	}
 	return id, acc
+}
+
+// boxTerm: the interface value that holds v (a function of the dynamic type and the value, so that boxing the same
+// value twice gives the same interface value).
+func (c *Ctx) boxTerm(v Val) string {
+	_, acc := c.ifaceTag(v.Typ)
+	return fmt.Sprintf("(box_%s %s)", acc[len("ifval_"):], v.T)
+}
+
+func isSyncMap(t types.Type) bool {
+	n, ok := t.(*types.Named)
+	return ok && n.Obj().Pkg() != nil && n.Obj().Pkg().Path() == "sync" && n.Obj().Name() == "Map"
+}
+
+// syncMapHeaps: a sync.Map field is a ghost map from interface values to interface values, stored per owner object.
+func (c *Ctx) syncMapHeaps(st *State, fieldKey string) (kd, kv, dom, val string) {
+	c.sortOf(types.NewInterfaceType(nil, nil))
+	kd, kv = "SMdom:"+fieldKey, "SMval:"+fieldKey
+	dom = c.heapGetSort(st, kd, "(Array Int (Array Iface Bool))")
+	val = c.heapGetSort(st, kv, "(Array Int (Array Iface Iface))")
+	return
 }
 
 // globalConst: package-level variables are treated as immutable (true for the lookup tables of this code base; recorded as an assumption).
@@ -1246,7 +1270,7 @@ func (fr *Frame) run(st0 *State) {
 				}
 				sort.Strings(hk)
 				for _, k := range hk {
-					if strings.HasPrefix(k, "IT") {
+					if strings.HasPrefix(k, "IT") || strings.HasPrefix(k, "SM") {
 						st.heap[k] = c.fresh("hvIt", c.heapSrt[k])
 						continue
 					}
@@ -1648,6 +1672,18 @@ func (fr *Frame) collectHeapEffects(body map[*ssa.BasicBlock]bool, depth int, se
 				full := callee.String()
 				if strings.HasPrefix(full, "maps.Copy[") {
 					addMap(x.Call.Args[0].Type())
+					continue
+				}
+				if full == "(*sync.Map).Store" || full == "(*sync.Map).Delete" {
+					if fa, ok := x.Call.Args[0].(*ssa.FieldAddr); ok {
+						if pt, ok := fa.X.Type().Underlying().(*types.Pointer); ok {
+							if n, ok := pt.Elem().(*types.Named); ok {
+								fk, _ := c.heapKey(n, fa.Field)
+								kd, kv, _, _ := c.syncMapHeaps(fr.entry, fk)
+								fr.rawHavoc = append(fr.rawHavoc, kd, kv)
+							}
+						}
+					}
 					continue
 				}
 				if callee.Pkg == nil || !strings.HasPrefix(callee.Pkg.Pkg.Path(), "github.com/juev/hledger-lsp") {
@@ -2178,10 +2214,7 @@ func (fr *Frame) step(st *State, in ssa.Instruction) bool {
 		return true
 	case *ssa.MakeInterface:
 		if _, isIf := x.X.Type().Underlying().(*types.Interface); !isIf && c.sortOf(x.X.Type()) != "U" {
-			id, acc := c.ifaceTag(x.X.Type())
-			i := c.fresh("iface", "Iface")
-			fr.assume(st, fmt.Sprintf("(and (= (iftag %s) %d) (= (%s %s) %s))", i, id, acc, i, fr.val(x.X).T))
-			fr.vals[x] = Val{i, x.Type()}
+			fr.vals[x] = Val{c.boxTerm(Val{fr.val(x.X).T, x.X.Type()}), x.Type()}
 			return true
 		}
 		c.sortOf(x.Type())
@@ -2317,6 +2350,31 @@ func (fr *Frame) call(st *State, x *ssa.Call) bool {
 		full = "maps.Copy"
 	}
 	switch full {
+	case "(*sync.Map).Load", "(*sync.Map).Store", "(*sync.Map).Delete":
+		if a, ok := fr.addrs[x.Call.Args[0]]; ok && a.Local == nil && !a.Elem && a.Base != nil && len(a.Path) == 1 {
+			fk, _ := c.heapKey(a.Base, a.Path[0])
+			kd, kv, dom, val := c.syncMapHeaps(st, fk)
+			fr.obligeAt(st, "safety.nil", "sel", fmt.Sprintf("(not (= %s 0))", a.Ref), x.Pos())
+			k := fr.val(x.Call.Args[1]).T
+			switch full {
+			case "(*sync.Map).Load":
+				has := fmt.Sprintf("(select (select %s %s) %s)", dom, a.Ref, k)
+				setRes(Val{fmt.Sprintf("(ite %s (select (select %s %s) %s) ifnil)", has, val, a.Ref, k), x.Call.Signature().Results().At(0).Type()}, Val{has, types.Typ[types.Bool]})
+			case "(*sync.Map).Store":
+				if !fr.writeAll {
+					fr.obligeAt(st, "frame.write", "call", fr.writePerm(fk, a.Ref), x.Pos())
+				}
+				v := fr.val(x.Call.Args[2]).T
+				st.heap[kd] = fmt.Sprintf("(store %s %s (store (select %s %s) %s true))", dom, a.Ref, dom, a.Ref, k)
+				st.heap[kv] = fmt.Sprintf("(store %s %s (store (select %s %s) %s %s))", val, a.Ref, val, a.Ref, k, v)
+			case "(*sync.Map).Delete":
+				if !fr.writeAll {
+					fr.obligeAt(st, "frame.write", "call", fr.writePerm(fk, a.Ref), x.Pos())
+				}
+				st.heap[kd] = fmt.Sprintf("(store %s %s (store (select %s %s) %s false))", dom, a.Ref, dom, a.Ref, k)
+			}
+			return true
+		}
 	case "unicode/utf8.DecodeRuneInString":
 		// peephole: decode of s[lo:] is decode at offset lo of s
 		if sl, ok := x.Call.Args[0].(*ssa.Slice); ok && sl.High == nil && c.sortOf(sl.X.Type()) == "Str" {
@@ -2521,6 +2579,12 @@ func (fr *Frame) applyContract(st *State, x *ssa.Call, callee *ssa.Function, fc 
 		hk, ft := c.heapKey(n, fi)
 		if !fr.writeAll {
 			fr.oblige(st, fmt.Sprintf("call[%s].frame.write[%s]@%d", key, m, c.prog.Fset.Position(x.Pos()).Line), fr.writePerm(hk, pv.T), x.Pos())
+		}
+		if isSyncMap(ft) {
+			kd, kv, dom, val := c.syncMapHeaps(st, hk)
+			st.heap[kd] = fmt.Sprintf("(store %s %s %s)", dom, pv.T, c.fresh("postSMdom", "(Array Iface Bool)"))
+			st.heap[kv] = fmt.Sprintf("(store %s %s %s)", val, pv.T, c.fresh("postSMval", "(Array Iface Iface)"))
+			continue
 		}
 		arr := c.heapGet(st, hk, ft)
 		nv := c.fresh("post_"+sanitize(m), c.sortOf(ft))
